@@ -185,6 +185,15 @@ impl Recv {
                 self.last_processed_id = frame.stream_id();
             }
 
+            // A pushed stream is only counted once its response starts. The
+            // limit was checked when the PUSH_PROMISE arrived, but other
+            // promised streams may have been activated since; refuse the
+            // stream instead of tripping the assertion in `Counts`.
+            if !counts.can_inc_num_recv_streams() {
+                proto_err!(stream: "recv_headers: concurrent stream limit reached; stream={:?}", stream.id);
+                return Err(Error::library_reset(stream.id, Reason::REFUSED_STREAM).into());
+            }
+
             // Increment the number of concurrent streams
             counts.inc_num_recv_streams(stream);
         }
